@@ -91,7 +91,9 @@ def register(reg):
                  assumes_inv=False, maintains_inv=False, trusted='A-CALLEE: DB.log_flush_stats only logs')
     reg.contract(
         DBK + '.flush_backup', params={'flush_data': Obj(FD), 'touched': Set(KBytes)},
-        requires=['flush_data.state.height >= 0'],
+        requires=['flush_data.state.height >= 0',
+                  ('undo-heights', 'forall(lambda j=Int: implies(0 <= j and j < len(flush_data.undo_infos), '
+                                   '0 <= flush_data.undo_infos[j][1] and flush_data.undo_infos[j][1] < 4294967296))')],
         raises={'AssertionError': ['self.utxo_db.g_commits == old(self.utxo_db.g_commits)',
                                    'self.history.db.g_commits == old(self.history.db.g_commits)']},      # refused before any write
         assumes_inv=False, maintains_inv=False,
